@@ -39,7 +39,8 @@ WHAT IS ENUMERATED
     content; old-or-new is demanded at every crash point as always;
   * PATH KINDS: the settings path in a nested directory, as a symbolic link to a file in the
     same / in another directory, as a relative path (cwd inside the sandbox), each ordinary
-    and faulted;
+    and faulted; settings file names of 245 / 250 / 254 / 255 bytes (NAME_MAX boundary: the temp
+    name does not fit — a save() that raises and leaves the old file intact is fine);
   * INITIAL DIRECTORY: every distinct crash state of a first save() (its leftover temp files
     and whichever content the target then has) is the initial directory of a second save()
     of shorter and of longer content; old-or-new is demanded of the second save's crash
@@ -77,6 +78,7 @@ TRUSTED = ["the recording wrappers and the step-by-step crash-state materialiser
 
 UNI = "\U0001F34Fé中"
 PATH_KINDS = ["plain", "nested", "symlink-same", "symlink-other", "relative", "relative-nested"]
+NAME_KINDS = ["name-245", "name-250", "name-254", "name-255"]      # file-name length in bytes, at the NAME_MAX boundary
 
 
 # --------------------------------------------------------------------------- sandbox layout
@@ -106,6 +108,10 @@ def make_layout(root, kind, target_bytes, extras):
     elif kind == "relative":
         cwd, given = live, "pyatv.conf"
         abs_ = real = os.path.join(live, "pyatv.conf")
+    elif kind.startswith("name-"):
+        # a settings file name at the NAME_MAX boundary (bytes): <name>.tmp<pid> no longer fits
+        n = int(kind.split("-")[1])
+        given = abs_ = real = os.path.join(live, "c" * (n - 5) + ".conf")
     elif kind == "relative-nested":
         os.makedirs(os.path.join(live, "sub"))
         cwd, given = live, os.path.join("sub", "pyatv.conf")
@@ -332,11 +338,12 @@ class Recorder:
                 return real_open(file, mode, buffering, encoding, *a, **k)
             rec.attempt("open")
             key, fid = os.path.realpath(ap), rec.new_fid()
+            fh = real_open(file, mode, buffering, encoding, *a, **k)     # an open that raises (ENAMETOOLONG…) is no operation
             if "w" in mode and "+" not in mode and "opener" not in k:
                 rec.add(("o", fid, rec.rel(ap), True), "o:" + rec.tok(key))
             else:
                 rec.add(("x", "open-" + mode), "unknown-open-" + mode.replace(":", ""))
-            return wrap(real_open(file, mode, buffering, encoding, *a, **k), fid, key, encoding)
+            return wrap(fh, fid, key, encoding)
 
         def osopen(path, flags, mode=0o777, *a, **k):
             ap = rec.inside(path) if not isinstance(path, int) else None
@@ -345,13 +352,13 @@ class Recorder:
                 return os_open(path, flags, mode, *a, **k)
             rec.attempt("open")
             key, fid = os.path.realpath(ap), rec.new_fid()
+            fd = os_open(path, flags, mode, *a, **k)
             if flags & (os.O_APPEND | os.O_RDWR):
                 rec.add(("x", "os.open-%o" % flags), "unknown-os-open-%o" % flags)
             elif flags & os.O_TRUNC:
                 rec.add(("o", fid, rec.rel(ap), True), "o:" + rec.tok(key))
             else:
                 rec.add(("o", fid, rec.rel(ap), False), "k:" + rec.tok(key))
-            fd = os_open(path, flags, mode, *a, **k)
             rec.raw_fds[fd] = (fid, key)
             return fd
 
@@ -960,6 +967,12 @@ def run(ctx, only=None):
                         continue
                     try:
                         with_faults(ctx, loop, dict(by_label[label], kind=kind), False, jobs)
+                    except Exception as e:
+                        ctx.disagree({"pair": label, "kind": kind}, "harness step raised %s: %s" % (type(e).__name__, e), "n/a", where="run_scenario")
+            for kind in NAME_KINDS:
+                for label in ["grow", "shrink"]:
+                    try:
+                        run_scenario(ctx, loop, dict(by_label[label], kind=kind), False, jobs)
                     except Exception as e:
                         ctx.disagree({"pair": label, "kind": kind}, "harness step raised %s: %s" % (type(e).__name__, e), "n/a", where="run_scenario")
     finally:
